@@ -198,6 +198,8 @@ func c01(c *Ctx) (*report.Result, error) {
 	res.RuleDoc["O1.1"] = "the value acknowledged upstream is a MIN reduction over all entries of ackByTarget (no entry is filtered out), read and updated under ackMu"
 	res.RuleDoc["O1.2"] = "the per-source value computed by AggregateUpTo is a MAX reduction over the entries it covers; only hole entries are skipped"
 	res.RuleDoc["O1.3"] = "recvAck discards ring entries only after the forwarding loop completed, with the very count AggregateUpTo returned in that iteration; a target is counted as done only when DeliverAckToShardOwner returned true; the shutdown exits discard nothing"
+	res.RuleDoc["O1.6"] = "the watermark replayed to late-registering target shards is a watermark nobody can be behind: every receiver's lastWatermark is written only from watermark-only batches (under len(ReplicationTasks) == 0); the exclusive high watermark of a task batch is not replayed, because its tasks may still be waiting for their target"
+	checkReplayedWatermark(c, res, "O1.6")
 	res.RuleDoc["O1.4"] = "watermark-only batches are offered to every registered target stream of the target cluster and to every remote shard of that cluster (no filter that could starve a target of watermarks)"
 
 	if f := resolve(c, res, "O1.1", anchor{"proxy", "*proxyStreamReceiver", "sendAck"}); f != nil {
@@ -823,5 +825,60 @@ func checkEveryWatermarkBroadcast(c *Ctx, res *report.Result, f *ssa.Function, r
 		}
 		r := flow.FindPath(flow.Point{Block: start}, isRecv, through, nil)
 		res.Check(!r.Found, rule, "recvReplicationMessages: every watermark-only batch is broadcast to the "+spec.what, c.Prog.Pos(start.Instrs[0].Pos()), "no path from the empty-batch test to the next Recv skips "+spec.method, "a watermark-only batch can be consumed without being offered to the "+spec.what+" (path "+flow.BlockPath(r.Via)+"): a hand-off dropped earlier (queue full) is then never repeated and the aggregated ack stalls below the final watermark")
+	}
+}
+
+// checkReplayedWatermark: sibling rule over every receiver type that keeps a lastWatermark for
+// NotifyNewTargetShard / GetLastWatermark. A target that has nothing outstanding confirms a watermark-only
+// message at once, and that confirmation is forwarded to the source as "everything below is replicated".
+func checkReplayedWatermark(c *Ctx, res *report.Result, rule string) {
+	sp, err := c.Prog.SSAPkg("proxy")
+	if err != nil {
+		res.Undec(rule, "proxy package", "", err.Error())
+		return
+	}
+	n := 0
+	for _, f := range c.Prog.RepoFuncs() {
+		if f.Package() != sp || !isShippedFunc(f) {
+			continue
+		}
+		for _, b := range f.Blocks {
+			for _, ins := range b.Instrs {
+				st, ok := ins.(*ssa.Store)
+				if !ok {
+					continue
+				}
+				fa, ok := st.Addr.(*ssa.FieldAddr)
+				if !ok || flow.FieldName(fa.X.Type(), fa.Field) != "lastWatermark" || flow.IsNilConst(st.Val) {
+					continue
+				}
+				owner := "?"
+				if nt := namedOf(fa.X.Type()); nt != nil {
+					owner = nt.Obj().Name()
+				}
+				n++
+				emptyOnly := false
+				for _, g := range flow.NormGuards(flow.Guards(b)) {
+					bo, isB := g.Cond.(*ssa.BinOp)
+					if !isB || bo.Op != token.EQL || !g.Side {
+						continue
+					}
+					if k, isK := flow.ConstInt(bo.Y); !isK || k != 0 {
+						continue
+					}
+					if lc, isC := bo.X.(*ssa.Call); isC {
+						if bi, isBi := lc.Call.Value.(*ssa.Builtin); isBi && bi.Name() == "len" {
+							if p, _ := flow.FieldPath(lc.Call.Args[0]); strings.HasSuffix(p, "ReplicationTasks") {
+								emptyOnly = true
+							}
+						}
+					}
+				}
+				res.Check(emptyOnly, rule, fmt.Sprintf("%s: %s.lastWatermark is recorded only from watermark-only batches", shortFn(f), owner), instrPos(c.Prog, st), "store under len(ReplicationTasks) == 0", "lastWatermark is also recorded from batches that carry tasks: when a target shard registers while such a batch is still waiting for its target, the batch's exclusive high watermark is replayed to that shard as a watermark-only message, the idle target confirms it at once, and the source shard is acknowledged past tasks no target stream has received")
+			}
+		}
+	}
+	if n < 2 {
+		res.Undec(rule, "writers of lastWatermark", "", fmt.Sprintf("%d stores found, 2 confirmed by hand (proxyStreamReceiver, intraProxyStreamReceiver)", n))
 	}
 }
